@@ -89,9 +89,15 @@ impl ExtensionsMap {
             }
             match subtag.first().map(|b| ExtensionType::from_byte(*b)) {
                 Some(Ok(ExtensionType::Unicode)) => {
+                    if !result.unicode.is_empty() {
+                        return Err(ParserError::InvalidExtension);
+                    }
                     result.unicode = UnicodeExtensionList::try_from_iter(iter)?;
                 }
                 Some(Ok(ExtensionType::Transform)) => {
+                    if !result.transform.is_empty() {
+                        return Err(ParserError::InvalidExtension);
+                    }
                     result.transform = TransformExtensionList::try_from_iter(iter)?;
                 }
                 Some(Ok(ExtensionType::Private)) => {
